@@ -29,6 +29,25 @@ fn sweep<T: BitRepr>(what: &str, comp: &T, out: &mut Outcome, in_body_from: usiz
         }
     }
     let total = reference.ops;
+    // the correct bit string comes from the crate's own byte sink, not from the user sink
+    let correct = catch(|| {
+        let mut bs = flacenc::bitsink::ByteSink::new();
+        comp.write(&mut bs).map(|()| {
+            let n = bs.len();
+            crate::oracle::bits::BitModel::from_bytes(bs.as_slice(), n)
+        })
+    });
+    let correct = match correct {
+        Ok(Ok(m)) => m,
+        _ => {
+            out.class("skipped:reference-write-failed(C18)");
+            return 0;
+        }
+    };
+    if correct.bits != reference.model.bits {
+        out.viol(format!("{what}:user-sink-receives-different-bits"), format!("a user sink that implements only the required operations receives {} bits, the byte sink {} bits, or they differ", reference.model.len(), correct.len()));
+        return total;
+    }
     for k in 0..total {
         let mut s = MinimalSink::failing_at(k);
         let r = catch(|| comp.write(&mut s));
